@@ -159,6 +159,8 @@ def gen_history(rng, nsteps=None, split_p=0.03, back_p=0.05, rep_p=0.08, types=N
     nsteps = nsteps if nsteps is not None else rng.choice([0, 1, 2, 5, 10, 30, 80])
     density = density if density is not None else rng.choice([0.2, 0.5, 0.9])
     t = rng.choice([0, 0, 1, 7, 1000])
+    if split_p > 0 and rng.random() < 0.06:
+        h.ops.append("a")                                   # the first store records nothing (a first chunk without time steps)
     for k in range(nsteps):
         r = rng.random()
         if k > 0 and r < back_p:
